@@ -993,7 +993,7 @@ func main() {
 		"every request (action x path x client IP x supplied credentials x verifier x {(rtsp,no token,ask off),(rtsp,no token,ask on),(hls,token+query,ask on)[,(hls,token+query,ask off) thorough]}); " +
 		"credential phases: every legal single entry over {any, plain u1, plain u1x, plain 80-character, sha256, argon2} x {empty, plain p1, plain p1x, plain 80-character, sha256, argon2} and all ordered pairs of 18 such entries x " +
 		"the full product of near misses of the configured values (exact, extended by a character / itself / NUL / blank, truncated, empty, prefixed, tail, other case, other value, 'any', stored hash, bare base64; of the 80-character values: exact, extended, truncated, last character changed) as supplied user x password, " +
-		"over {6 actions} x {granting, refusing path} x {contained, not contained client IP} [thorough: 4 paths x 7 IPs] x verifiers x ask on/off; " +
+		"over {6 actions} x {granting, refusing path} x {contained, not contained client IP} [thorough: 3 paths x 4 IPs] x verifier {nil, equals-supplied [thorough, single entries: always, never]} x ask on/off [quick: pairs with asking off only]; " +
 		"hot-swap: every ordered pair of lists from the sub-alphabet with ReloadInternalUsers in between; " +
 		"distinct = (phase, verifier, per-entry (IP reason, permission reason, credential reason incl. the relation of a non-matching guess to the configured value), decision, AskCredentials)"
 
@@ -1028,10 +1028,7 @@ func main() {
 			ck.merge(a)
 		}
 	}
-	runPhase("single", singles, nil)
-	r.Set("lists_single", len(singles))
-
-	// ---- credential phases: "matches the supplied username and password" means EQUALS. Every legal
+	// ---- credential phases (run first: the cheapest phases, and the only ones with near-miss credentials): "matches the supplied username and password" means EQUALS. Every legal
 	// combination of {any, plain u1, plain u1x, plain 80 characters, sha256, argon2 user} x {empty, plain p1,
 	// plain p1x, plain 80 characters, sha256, argon2 password} as a single entry, and all ordered pairs of entries whose plain credentials extend
 	// one another, against the full product of near misses of the configured values (t.sup beyond the
@@ -1071,8 +1068,8 @@ func main() {
 		sups: upTo(len(t.sup)), variants: []variant{{0, 0}, {0, 1}},
 	}
 	if r.Thorough() {
-		credScope.paths = nameIdx(t.paths, "", "a", "b1", "ab")
-		credScope.ips = upTo(7)
+		credScope.paths = nameIdx(t.paths, "", "a", "ab")
+		credScope.ips = nameIdx(ipNames, "10.1.2.3(4B)", "11.0.0.0", "::ffff:10.1.2.3", "nil")
 		credScope.variants = t.variants
 	}
 	credIPs := []int{ipIdx(), ipIdx("10.0.0.0/8")}
@@ -1099,14 +1096,21 @@ func main() {
 		}
 	}
 	sc1, sc2 := *credScope, *credScope
-	sc1.phase, sc1.allVerifiers = "cred-single", true
-	sc2.phase, sc2.allVerifiers = "cred-pair", r.Thorough()
+	// the always/never verifiers (which ignore what was supplied) run on the single entries in the thorough tier
+	// only; quick: the pairs run with asking off only (asking is judged on every cred-single list)
+	sc1.phase, sc1.allVerifiers = "cred-single", r.Thorough()
+	sc2.phase, sc2.allVerifiers = "cred-pair", false
+	if !r.Thorough() {
+		sc2.variants = []variant{{0, 0}}
+	}
 	runPhase(sc1.phase, credSingles, &sc1)
 	runPhase(sc2.phase, credPairs, &sc2)
 	r.Set("lists_cred_single", len(credSingles))
 	r.Set("lists_cred_pair", len(credPairs))
 	r.Set("requests_per_list_without_verifier_cred", sc1.requests())
 
+	runPhase("single", singles, nil)
+	r.Set("lists_single", len(singles))
 	runPhase("pair", pairs, nil)
 	r.Set("lists_pair", len(pairs))
 
